@@ -2,7 +2,7 @@
 from tesim import acct, gen_acct
 
 PROP = "C03"
-PLAN = {"quick": 5000, "thorough": 500000}
+PLAN = {"quick": 10000, "thorough": 500000}
 TIMEOUT = 20
 CHUNK = 250
 RULE = ("seeded swarm of account histories (prior holdings reached through random trades and rebalances: long, short, "
